@@ -28,7 +28,10 @@ def install_stubs(I):
         p = deref(path)
         return Agg('Url', [StrV(list(p.b if isinstance(p, StrV) else seq_items(p)))])
     @model('uri_to_file_name')
-    def _(I, ctx, uri): return StrV(list(deref(uri).fields[0].b))
+    def _(I, ctx, uri):
+        # a Url is its path here; `/./` stands for any spelling difference that URL decoding removes (percent-encoding, dot segments)
+        b = bytes(x.e for x in deref(uri).fields[0].b).replace(b'/./', b'/')
+        return StrV([BV(x, 8) for x in b])
     @model('std::path::absolute', 'absolute')
     def _(I, ctx, p): return OK(StrV(list(str_bytes(p))))
     @model('dunce::simplified', 'simplified')
